@@ -7,6 +7,7 @@ import BorshModel.Spec
 import BorshModel.SchemaOf
 import BorshModel.Io
 import BorshModel.IoOps
+import BorshModel.ArrayGuard
 open Borsh Driver
 
 def strict? : Sx → Option Bool
@@ -196,6 +197,25 @@ def runCase (xs : List Sx) : String :=
     | some ops =>
       let r := if io == "std" then Std.vecWriterOps ops [] else NoStd.vecWriterOps ops []
       showObsList r.1 ++ " written=" ++ hexOf r.2
+    | none => "bad-case parse"
+  | [.atom "guard", .atom n, .atom k, .atom mode] =>
+    match n.toNat? with
+    | some n =>
+      let plan : Nat → ElemResult := fun i =>
+        match k.toNat? with
+        | some k => if i == k then (if mode == "panic" then .panic else .err) else .ok
+        | none => .ok
+      let r := arrayRun n plan
+      let evs := r.1.map fun e => match e with
+        | .construct i => "c" ++ toString i
+        | .dropElem i => "d" ++ toString i
+        | .handOver i => "h" ++ toString i
+        | .touchUninit i => "U" ++ toString i
+      let oc := match r.2 with
+        | .returned => "returned"
+        | .failed => "failed"
+        | .unwound => "unwound"
+      oc ++ " (" ++ " ".intercalate evs ++ ")"
     | none => "bad-case parse"
   | [.atom "cont", st, b] =>
     match strict? st, bytes? b with
